@@ -234,6 +234,8 @@ impl<T> Pool<T> {
         let _ = inner.available.fetch_sub(1, Ordering::Relaxed);
         let waiting = Waiting(&inner.available);
         #[cfg(deadpool_verif)]
+        let verif_undo = crate::verif::PointOnDrop("uget.undo");
+        #[cfg(deadpool_verif)]
         crate::verif::point("uget.acquire");
         let permit = match (timeout, inner.config.runtime) {
             (None, _) => inner
@@ -266,6 +268,8 @@ impl<T> Pool<T> {
         let obj = obj.ok_or(PoolError::Closed)?;
         permit.forget();
         std::mem::forget(waiting);
+        #[cfg(deadpool_verif)]
+        verif_undo.disarm();
         Ok(Object {
             pool: Arc::downgrade(&self.inner),
             obj: Some(obj),
@@ -321,8 +325,6 @@ impl<T> Pool<T> {
     /// back. `close()` closes the `semaphore` before it takes the lock of the
     /// queue, therefore an `object` pushed here is always seen by `close()`.
     fn _add(&self, object: T) -> Result<(), (T, PoolError)> {
-        #[cfg(deadpool_verif)]
-        crate::verif::point("uadd.size_inc");
         #[cfg(deadpool_verif)]
         crate::verif::point("uadd.push");
         {
